@@ -63,8 +63,19 @@ Theorem C09_retry_subset : forall c s pls cur v s' out, Inv s -> ph s = Sending 
                    forall x off, In (x, 0, off) (resps_of v) -> ~ In x cur'.
 Proof. exact retry_subset. Qed.
 Print Assumptions C09_retry_subset.
-(* ... the retry sends exactly those payloads, with the messages they had in the first attempt, as the next attempt ... *)
-Theorem C09_retry_resends : forall c s pls cur tid s' out, ph s = RetryWait pls cur tid -> step c s (ETimer tid) = (s', out) ->
+(* ... in fact exactly the failed payloads: those whose broker request failed and those answered with an error code,
+   or every payload of this attempt after a Kafka failure of the request as a whole (failed_tps). *)
+Theorem C09_retry_exact : forall c s pls cur v s' out, Inv s -> ph s = Sending pls cur -> result_ok c cur v = true ->
+  step c s (EResult v) = (s', out) ->
+  In OBatchDone out \/
+  (exists tid, ph s' = RetryWait pls (failed_tps v cur) tid /\ incl (failed_tps v cur) cur /\
+               forall x off, In (x, 0, off) (resps_of v) -> ~ In x (failed_tps v cur)).
+Proof. exact retry_exact. Qed.
+Print Assumptions C09_retry_exact.
+(* ... the retry sends exactly those payloads, with the messages they had in the first attempt, as the next attempt
+   (this one is the unfolding of the model's retry step: its force comes from the correspondence) ... *)
+Theorem C09_retry_resends : forall c s pls cur tid s' out, ph s = RetryWait pls cur tid -> broken s = false ->
+  step c s (ETimer tid) = (s', out) ->
   out = [OSendProduce (nsp s + 1) (magic_of s) (map payload_view (filter (fun p => tpmem (p_tp p) cur) pls))] /\
   ph s' = Sending pls cur.
 Proof. exact retry_resends. Qed.
